@@ -29,7 +29,7 @@ SupportedTerms == CollectTerms \cup FindTerms \cup {"collect_x", "count", "for_e
 
 \* programs whose runs this pass tracks
 Applicable(ev) ==
-  /\ ev.mode # "free"
+  /\ ev.mode \in {"rand", "replay"}      \* ("hold" runs park a worker inside next(): not a linearisation of whole pulls)
   /\ ~IsBig(ev.p)
   /\ ev.p.src \in {"vec", "slice", "range", "iter", "iterx", "deque", "list", "btree", "dequeref", "btreeref",
                   "hashset", "hashsetref", "heap", "heapref", "listref"}
